@@ -141,8 +141,27 @@ def check_group(ck, m, grp, label, impl_expect):
             body = mir.Body(fn)
             if op == "check":
                 o = body.origin_local(0)
-                ok = o[0] == "call" and o[1].endswith("Option::<T>::is_some") and forward.leafify(o[2][0])[0] == "call" \
-                    and forward.leafify(o[2][0])[1].endswith("::as_ref_impl_" + suffix) and forward.leafify(forward.leafify(o[2][0])[2][0]) == ("arg", 1)
+
+                def is_as_ref(x):
+                    x = forward.leafify(x)
+                    return x[0] == "call" and x[1].endswith("::as_ref_impl_" + suffix) and forward.leafify(x[2][0]) == ("arg", 1)
+                # `self.as_ref_impl_S().is_some()`, `!...is_none()`, or a match on its discriminant returning true for Some / false for None
+                ok = o[0] == "call" and o[1].endswith("Option::<T>::is_some") and is_as_ref(o[2][0])
+                if not ok and o[0] == "un" and o[1] == "Not" and o[2][0] == "call" and o[2][1].endswith("Option::<T>::is_none"):
+                    ok = is_as_ref(o[2][2][0])
+                if not ok:
+                    sws = [sw for sw in mir.discr_switches(body) if sw[1][0] == "discr" and is_as_ref(sw[1][1])]
+                    if len(sws) == 1 and len(mir.discr_switches(body)) == 1:
+                        arms = mir.enum_arms(body, sws[0])
+                        vals = {}
+                        for d in body.defs().get(0, []):
+                            if d[2] == "rv":
+                                c = body.origin_rvalue(d[3])
+                                if c[0] == "const":
+                                    for v, bb in arms.items():
+                                        if body.dominates(bb, d[0]):
+                                            vals.setdefault(v, set()).add(bool(c[1]))
+                        ok = set(arms) == {0, 1} and vals == {0: {False}, 1: {True}} and len(body.defs().get(0, [])) == 2
                 ck.ob("G5-check-is-as-ref-some", key, ok, "%s is not `self.as_ref_impl_%s().is_some()`: %s" % (fname, suffix, mir.fmt(o)[:160]))
                 continue
             brs = branch_sets(body)
